@@ -414,4 +414,61 @@ example : Reads "RY".toList "AC".toList := by
 example : maxInt32 < readingCount (List.replicate 16 'N') := by decide
 example : readingCount "NNKRY".toList ≤ maxInt32 := by decide
 
+/-! ### Palindromic words (checks.IsPalindromic; the self-complementarity test of primers.SantaLucia and
+the strand choice of seqhash.Hash use the same comparison `s == ReverseComplement(s)`): pointwise
+characterisation for every length, and why the middle base of an odd-length word matters -/
+
+def acgtBoth : List Char := ['A', 'C', 'G', 'T', 'a', 'c', 'g', 't']
+
+theorem table_compl_no_fixed_acgt : ∀ x ∈ acgtBoth, complementBase x ≠ x := by decide
+
+theorem revComp_getElem (s : Str) (i : Nat) (hi : i < s.length) :
+    (revComp s)[i]'(by rw [rc_length]; exact hi) = complementBase (s[s.length - 1 - i]'(by omega)) := by
+  simp [revComp, complement, List.getElem_reverse]
+
+/-- position by position: a palindromic word holds at `i` the complement of its letter at `n-1-i` -/
+theorem palindromic_pointwise {s : Str} (h : isPalindromic s = true) (i : Nat) (hi : i < s.length) :
+    s[i] = complementBase (s[s.length - 1 - i]'(by omega)) := by
+  have e : s = revComp s := (palindromic_iff s).1 h
+  rw [← revComp_getElem s i hi]
+  congr 1
+
+/-- … and conversely: the pointwise condition at EVERY position (the middle one included) is palindromicity -/
+theorem palindromic_of_pointwise {s : Str}
+    (h : ∀ i (hi : i < s.length), s[i] = complementBase (s[s.length - 1 - i]'(by omega))) :
+    isPalindromic s = true := by
+  rw [palindromic_iff]
+  apply List.ext_getElem (by rw [rc_length])
+  intro i h1 h2
+  rw [revComp_getElem s i h1]
+  exact h i h1
+
+/-- a word over A/C/G/T (either case) that equals its reverse complement has even length: in an
+odd-length word the middle base would be its own complement -/
+theorem palindromic_even {s : Str} (hs : ∀ x ∈ s, x ∈ acgtBoth) (h : isPalindromic s = true) :
+    s.length % 2 = 0 := by
+  by_contra hodd
+  have hk : s.length / 2 < s.length := by omega
+  have hp := palindromic_pointwise h (s.length / 2) hk
+  have hidx : s.length - 1 - s.length / 2 = s.length / 2 := by omega
+  have hm : s[s.length / 2] ∈ acgtBoth := hs _ (List.getElem_mem hk)
+  have e2 : s[s.length - 1 - s.length / 2]'(by omega) = s[s.length / 2] := by simp only [hidx]
+  rw [e2] at hp
+  exact table_compl_no_fixed_acgt _ hm hp.symm
+
+/-- hence an odd-length word over A/C/G/T is never palindromic, whatever its flanks: the enzyme site
+GCAGC is directional (clone.CutWithEnzyme), ACT carries no symmetry correction (primers.SantaLucia),
+and AGT / ACT are two different strands for seqhash.Hash to choose between -/
+theorem odd_not_palindromic {s : Str} (hs : ∀ x ∈ s, x ∈ acgtBoth) (hodd : s.length % 2 = 1) :
+    isPalindromic s = false := by
+  cases h : isPalindromic s with
+  | false => rfl
+  | true => have := palindromic_even hs h; omega
+
+/-- the two-pointer shortcut of the seeded changes C04-k / C10-k / C19-k (compare only positions
+`i < n-1-i`) accepts odd-length words that are not palindromic: concrete witnesses -/
+example : isPalindromic "GCAGC".toList = false ∧ isPalindromic "AAT".toList = false ∧
+    isPalindromic "A".toList = false ∧ isPalindromic "GGTCTC".toList = false ∧
+    isPalindromic "GAATTC".toList = true := by decide
+
 end PolyVerif.Props.C11
